@@ -314,7 +314,9 @@ func (w *World) opSchedule() {
 	podJ, nodesJ := o.JSON, w.nodesJSON()
 	t := w.S.Spawn("sched:"+p.key()+"#"+p.UID, w.proc, func() { schedTask(inst, podJ, nodesJ, "") })
 	t.Tag = "sched"
+	t.Data = &taskMeta{start: w.S.Steps, confRead: -1, podUID: p.UID}
 	w.schedBusy[p.UID] = t
+	w.openFilterWindow(p)
 }
 
 // ---- kubelet -------------------------------------------------------------------------------------------
@@ -369,6 +371,7 @@ func (w *World) opScale() {
 	}
 	n := w.C.Range(0, 3)
 	w.setReplicas(a, n)
+	w.modelAppChanged(a)
 	w.trimPods(a)
 }
 
